@@ -55,6 +55,20 @@ func (h *c07h) extraJobs(root *rng, tier string, jobs *[]*c07job) {
 			add(func(j *c07job) { h.runStatic(j, r, st) })
 		}
 	}
+	// every parameter kind x every method subset that type-checks x receiver kind
+	for rep := 0; rep < nT/2+1; rep++ {
+		for _, pk := range []string{"PErrorParam", "PStringerParam", "PAnyParam"} {
+			for mask := 0; mask < 8; mask++ {
+				if pk == "PErrorParam" && mask&1 == 0 || pk == "PStringerParam" && mask&4 == 0 {
+					continue
+				}
+				for _, ptr := range []bool{false, true} {
+					r, pk, mask, ptr := root.fork(), pk, mask, ptr
+					add(func(j *c07job) { h.runWrap(j, r, pk, mask, ptr) })
+				}
+			}
+		}
+	}
 	nI := 2
 	if tier == "thorough" {
 		nI = 25
@@ -63,7 +77,10 @@ func (h *c07h) extraJobs(root *rng, tier string, jobs *[]*c07job) {
 	add(func(j *c07job) { h.runIfacePrograms(j, progs) })
 	for i, z := range c07negzeros() {
 		z, extra := z, (i+int(root.next()%2))%2 == 0
-		add(func(j *c07job) { h.runNegZero(j, z, extra) })
+		add(func(j *c07job) { h.runNegZero(j, z, extra, false) })
+		if i%3 == 0 {
+			add(func(j *c07job) { h.runNegZero(j, z, extra, true) })
+		}
 	}
 }
 
@@ -87,10 +104,8 @@ func c07compositeLit(v *cval) bool {
 		return true
 	case ckSlice, ckMap:
 		return !v.Nil
-	case ckAny:
-		return !v.Nil && v.Dyn.T.K != ckStruct && c07compositeLit(v.Dyn)
 	}
-	return false
+	return false // a composite literal assigned to an interface-typed variable is built apart and then stored
 }
 
 // runVarHost: the host changes the variable after the script is compiled (hostchange), the script
@@ -174,8 +189,19 @@ func (h *c07h) runVarHost(j *c07job, r *rng, region string) {
 	j.evals++
 	j.tick("V:host:" + how)
 	j.dist = append(j.dist, "VH|"+t.src()+"|"+how+"|"+v0.String()+"|"+v1.String()+"|"+v2.String())
-	mk := func(dir, shape, reg string, sent, old *cval, obs func() *cval) {
-		c := &c07case{Kind: "var", Dir: dir, Shape: shape, Ts: []*c07t{t}, Sent: []*cval{sent}, Old: old, Ref: []*cval{c07native(sent, env)}, Region: reg, Input: in}
+	rk := "(KHostRead RLive)"
+	if read == "direct" {
+		rk = "(KHostRead RDirect)"
+	}
+	wk := map[string]string{"ptr": "(KHostWrite WDeref)", "viavar": "(KHostWrite WDirect)", "direct": "(KHostWrite WDirect)", "none": ""}[write]
+	if write == "direct" && c07compositeLit(v2) {
+		wk = "(KHostWrite WDirectLit)"
+	}
+	mk := func(dir, shape, reg string, sent, prev *cval, obs func() *cval) {
+		c := &c07case{Kind: "var", Dir: dir, Shape: shape, Ts: []*c07t{t}, Sent: []*cval{sent}, Old: v0, Prev: prev, Ref: []*cval{c07native(sent, env)}, Region: reg, Input: in, CoqK: rk}
+		if strings.HasPrefix(shape, "hostvar-write") {
+			c.CoqK = wk
+		}
 		if run.failed != "" {
 			c.Impl = c07badList(c.Ts, run.failed)
 		} else {
@@ -248,6 +274,9 @@ func (h *c07h) runVarScript(j *c07job, r *rng) {
 	mk("S2H", "scriptvar-read/"+path, v0, func() *cval { return read })
 	mk("H2S", "scriptvar-write/globals", v1, func() *cval { return c07parse(t, after) })
 	mk("RTH", "scriptvar-readback/eval", v1, func() *cval { return back })
+	for i, k := range []string{"(KShared S2H)", "(KShared H2S)", "KRoundH"} {
+		j.cases[len(j.cases)-3+i].CoqK = k
+	}
 }
 
 // ---------------------------------------------------------------- M: mutations through pointers, slices and maps seen on the other side
@@ -361,7 +390,7 @@ func (h *c07h) runMut(j *c07job, r *rng) {
 	in := map[string]any{"stream": "mutation", "type": t.src(), "value": v0.String()}
 	j.evals++
 	mk := func(dir, shape string, sent *cval, failed string, obs func() *cval) {
-		c := &c07case{Kind: "var", Dir: dir, Shape: shape, Ts: []*c07t{t}, Sent: []*cval{sent}, Ref: []*cval{c07native(sent, env)}, Input: in}
+		c := &c07case{Kind: "var", Dir: dir, Shape: shape, Ts: []*c07t{t}, Sent: []*cval{sent}, Ref: []*cval{c07native(sent, env)}, Input: in, CoqK: "(KShared " + dir + ")"}
 		if failed != "" {
 			c.Impl = c07badList(c.Ts, failed)
 		} else {
@@ -465,7 +494,12 @@ func (h *c07h) runRoundTrip(j *c07job, r *rng) {
 	j.evals += 2
 	j.tick("X:" + how)
 	j.dist = append(j.dist, "X|"+t.src()+"|"+how+"|"+v.String())
-	c := &c07case{Kind: "var", Dir: "RTS", Shape: "roundtrip/" + how, Ts: []*c07t{t}, Sent: []*cval{v}, Ref: []*cval{c07native(v, env)}, Input: in}
+	if how == "named" {
+		vv := *v
+		vv.Named = true
+		v = &vv
+	}
+	c := &c07case{Kind: "var", Dir: "RTS", Shape: "roundtrip/" + how, Ts: []*c07t{t}, Sent: []*cval{v}, Ref: []*cval{c07native(v, env)}, Input: in, CoqK: "KRoundS"}
 	if run.failed != "" {
 		c.Impl = c07badList(c.Ts, run.failed)
 	} else {
@@ -486,7 +520,7 @@ func (h *c07h) runRoundTrip(j *c07job, r *rng) {
 		}
 		back = c07observe(t, o[0], env)
 	})
-	c2 := &c07case{Kind: "var", Dir: "RTH", Shape: "roundtrip/" + how, Ts: []*c07t{t}, Sent: []*cval{v}, Ref: []*cval{c07native(v, env)}, Input: in}
+	c2 := &c07case{Kind: "var", Dir: "RTH", Shape: "roundtrip/" + how, Ts: []*c07t{t}, Sent: []*cval{v}, Ref: []*cval{c07native(v, env)}, Input: in, CoqK: "KRoundH"}
 	if run2.failed != "" {
 		c2.Impl = c07badList(c2.Ts, run2.failed)
 	} else {
@@ -592,7 +626,7 @@ func (h *c07h) runCounter(j *c07job, r *rng) {
 	j.tick("C:" + owner)
 	j.dist = append(j.dist, fmt.Sprint("C|", owner, k, steps, side))
 	sent := c07ints(exp)
-	c := &c07case{Kind: "var", Dir: "RTS", Shape: "stateful-closure/" + owner, Ts: []*c07t{ctIntSlice}, Sent: []*cval{sent}, Ref: []*cval{c07native(sent, env)}, Input: in}
+	c := &c07case{Kind: "var", Dir: "RTS", Shape: "stateful-closure/" + owner, Ts: []*c07t{ctIntSlice}, Sent: []*cval{sent}, Ref: []*cval{c07native(sent, env)}, Input: in, CoqK: "KRoundS"}
 	if failed != "" {
 		c.Impl = c07badList(c.Ts, failed)
 	} else {
@@ -600,8 +634,6 @@ func (h *c07h) runCounter(j *c07job, r *rng) {
 	}
 	j.add(c)
 }
-
-func (h *c07h) finish(out string, jobs []*c07job) error { return nil }
 
 // ---------------------------------------------------------------- T: type assertions of Interface() to static Go function types
 
@@ -878,7 +910,10 @@ func (h *c07h) runMethods(j *c07job, r *rng, form, method string) {
 	env := c07hostEnv()
 	sent := &cval{T: ctString, S: exp}
 	c := &c07case{Kind: "results", Dir: "H2S", Sig: c07func(nil, []*c07t{ctString}, false), Shape: "host-method/" + form + "/" + method, Ts: []*c07t{ctString}, Sent: []*cval{sent}, Ref: []*cval{c07native(sent, env)},
-		Region: c07methodRegion(form, method), Input: map[string]any{"stream": "host-methods", "form": form, "method": method, "script": src}}
+		Region: c07methodRegion(form, method), Input: map[string]any{"stream": "host-methods", "form": form, "method": method, "script": src},
+		Meth: &c07meth{form: form, vp: map[string]int{"Sum": -1, "Cat": 1, "Both": -1, "Set": -1}[mname], np: map[string]int{"Sum": 1, "Cat": 2, "Both": 2, "Set": 2}[mname],
+			na: map[string]int{"Sum": 1, "Cat-ind": 1 + n, "Cat-spread": 2, "Cat-empty": 1, "Both": 2, "Set": 2}[method]}}
+	c.Kind = "meth"
 	if run.failed != "" {
 		c.Impl = c07badList(c.Ts, run.failed)
 	} else {
@@ -920,7 +955,7 @@ func c07negzeros() []c07nz {
 	}
 }
 
-func (h *c07h) runNegZero(j *c07job, z c07nz, extra bool) {
+func (h *c07h) runNegZero(j *c07job, z c07nz, extra, closure bool) {
 	env := c07hostEnv()
 	t := z.t
 	sigIn := []*c07t{t}
@@ -936,6 +971,10 @@ func (h *c07h) runNegZero(j *c07job, z c07nz, extra bool) {
 	}
 	sig := c07func(sigIn, nil, false)
 	src := c07prelude + fmt.Sprintf("var Rec string\nfunc F(%s) { Rec = %s }\nfunc Ref() { F(%s) }\n", params, rec, lits)
+	if closure {
+		// the callee is a closure held in a variable: the in-script call goes through reflect and keeps the sign
+		src = c07prelude + fmt.Sprintf("var Rec string\nfunc mk() func(%s) { return func(%s) { Rec = %s } }\nvar F = mk()\nfunc Ref() { F(%s) }\n", strings.Join(c07srcs(sigIn), ", "), params, rec, lits)
+	}
 	in := map[string]any{"stream": "negative-zero", "signature": c07sigString(sig), "args": c07valStrings(args), "script": src}
 	j.evals += 2
 	j.tick("N")
@@ -966,7 +1005,10 @@ func (h *c07h) runNegZero(j *c07job, z c07nz, extra bool) {
 	ref.eval("Ref()", h.timeout)
 	r2 := ref.evalString("Rec", h.timeout)
 	region := "negzero"
-	sa := &c07case{Kind: "args", Dir: "S2S", Sig: sig, Mode: "plain", Shape: "negzero", Ts: sigIn, Sent: args, Ref: bound, Region: region, Input: in}
+	if closure {
+		region = ""
+	}
+	sa := &c07case{Kind: "args", Dir: "S2S", Sig: sig, Mode: "plain", Shape: "negzero", FuncV: closure, Ts: sigIn, Sent: args, Ref: bound, Region: region, Input: in}
 	if ref.failed != "" {
 		sa.Impl = c07badList(sigIn, ref.failed)
 	} else {
@@ -1008,7 +1050,6 @@ func c07ifacePrograms(r *rng, n int) []c07prog {
 	add := func(kind, region, src string) {
 		out = append(out, c07prog{name: fmt.Sprintf("p%03d", len(out)), kind: kind, region: region, src: src})
 	}
-	pin := func(o string) { out[len(out)-1].pinned = o }
 	for i := 0; i < n; i++ {
 		a, b := r.intn(1000), word()
 		// Stringer (value and pointer receivers) through fmt verbs and as fmt.Stringer values
@@ -1090,81 +1131,6 @@ func main() {
 	}
 }
 `, b, a%8, a%8+5))
-		add("error-as", "iface-errors-as", fmt.Sprintf(`package main
-
-import (
-	"errors"
-	"fmt"
-)
-
-type MyErr struct{ Code int }
-
-func (e *MyErr) Error() string { return fmt.Sprint("myerr ", e.Code) }
-
-func main() {
-	var err error = &MyErr{%d}
-	var me *MyErr
-	fmt.Println(errors.As(err, &me), me != nil && me.Code == %d)
-}
-`, a, a))
-		pin("\x00panic:value:errors: *target must be interface or implement error")
-		add("error-unwrap", "iface-errors-unwrap", fmt.Sprintf(`package main
-
-import (
-	"errors"
-	"fmt"
-)
-
-type Wrap struct {
-	Op  string
-	Err error
-}
-
-func (w *Wrap) Error() string { return w.Op + ": " + w.Err.Error() }
-func (w *Wrap) Unwrap() error { return w.Err }
-
-var sentinel = errors.New("sentinel")
-
-func main() {
-	var err error = &Wrap{%q, sentinel}
-	fmt.Println(err.Error(), errors.Is(err, sentinel), errors.Unwrap(err) == sentinel)
-}
-`, b))
-		pin(b + ": sentinel false false\n\x00ok")
-		add("error-is", "iface-errors-is", fmt.Sprintf(`package main
-
-import (
-	"errors"
-	"fmt"
-)
-
-type MyErr struct{ Code int }
-
-func (e *MyErr) Error() string { return fmt.Sprint("myerr ", e.Code) }
-
-func main() {
-	var err error = &MyErr{%d}
-	w := fmt.Errorf("ctx: %%w", err)
-	fmt.Println(errors.Is(w, err))
-}
-`, a))
-		pin("false\n\x00ok")
-		add("error-print", "iface-error-print", fmt.Sprintf(`package main
-
-import "fmt"
-
-type ValErr struct{ Msg string }
-
-func (e ValErr) Error() string { return "valerr " + e.Msg }
-
-func main() {
-	var err error = ValErr{%q}
-	fmt.Println(err)
-	fmt.Printf("%%v|%%s\n", err, err)
-}
-`, b))
-		pin("{" + b + "}\n{" + b + "}|{" + b + "}\n\x00ok")
-		// sort.Interface
 		add("sort", "", fmt.Sprintf(`package main
 
 import (
@@ -1342,4 +1308,125 @@ func (h *c07h) runIfacePrograms(j *c07job, progs []c07prog) {
 				Impl: impl[i], Ref: ro})
 		}
 	}
+}
+
+// ---------------------------------------------------------------- W: what the host can see of a script value handed to it as an interface
+
+type c07wrapCase struct {
+	ID        int
+	pkind     string   // PErrorParam | PStringerParam | PAnyParam
+	methods   []string // methods of the script type
+	probe     string   // "Error" | "Unwrap" | "String" | "comparable"
+	impl, ref bool
+	region    string
+	input     map[string]any
+}
+
+// c07probeValue reports what native code can find out about a received interface value.
+func c07probeValue(v interface{}) map[string]bool {
+	m := map[string]bool{}
+	if v == nil {
+		return m
+	}
+	_, m["Error"] = v.(interface{ Error() string })
+	_, m["Unwrap"] = v.(interface{ Unwrap() error })
+	_, m["String"] = v.(interface{ String() string })
+	m["comparable"] = reflect.TypeOf(v).Comparable()
+	return m
+}
+
+func (h *c07h) runWrap(j *c07job, r *rng, pkind string, mask int, ptrRecv bool) {
+	all := []string{"Error", "Unwrap", "String"}
+	var methods []string
+	for i, m := range all {
+		if mask&(1<<i) != 0 {
+			methods = append(methods, m)
+		}
+	}
+	msg := (&c07vgen{r: r, probe: true}).str()
+	recv := "t T"
+	lit := fmt.Sprintf("T{Msg: %q}", msg)
+	if ptrRecv {
+		recv = "t *T"
+		lit = "&" + lit
+	}
+	var b strings.Builder
+	b.WriteString("type T struct {\n\tMsg   string\n\tInner error\n}\n")
+	for _, m := range methods {
+		switch m {
+		case "Error":
+			fmt.Fprintf(&b, "func (%s) Error() string { return \"E:\" + t.Msg }\n", recv)
+		case "Unwrap":
+			fmt.Fprintf(&b, "func (%s) Unwrap() error { return t.Inner }\n", recv)
+		case "String":
+			fmt.Fprintf(&b, "func (%s) String() string { return \"S:\" + t.Msg }\n", recv)
+		}
+	}
+	fn := map[string]string{"PErrorParam": "ProbeErr", "PStringerParam": "ProbeStr", "PAnyParam": "ProbeAny"}[pkind]
+	fmt.Fprintf(&b, "func Run() {\n\tv := %s\n\thost.%s(v)\n}\n", lit, fn)
+	src := c07prelude + b.String()
+	var seen map[string]bool
+	var text string
+	rec := func(v interface{}) {
+		seen = c07probeValue(v)
+		switch x := v.(type) {
+		case error:
+			text = x.Error()
+		case fmt.Stringer:
+			text = x.String()
+		}
+	}
+	run := c07new(map[string]reflect.Value{
+		"ProbeErr": reflect.ValueOf(func(e error) { rec(e) }),
+		"ProbeStr": reflect.ValueOf(func(e fmt.Stringer) { rec(e) }),
+		"ProbeAny": reflect.ValueOf(func(e interface{}) { rec(e) }),
+	})
+	run.eval(src, h.timeout)
+	run.eval("Run()", h.timeout)
+	j.evals++
+	j.tick("W:" + pkind)
+	j.dist = append(j.dist, fmt.Sprint("W|", pkind, methods, ptrRecv, msg))
+	in := map[string]any{"stream": "script-value-as-host-interface", "param": pkind, "methods": strings.Join(methods, ","), "pointer-receiver": ptrRecv, "script": src}
+	if run.failed != "" || seen == nil {
+		j.other = append(j.other, refMismatch{Input: in, Impl: "failed: " + run.failed, Ref: "the host function is called"})
+		return
+	}
+	// the method the parameter's interface itself has must work
+	wantText := map[string]string{"PErrorParam": "E:" + msg, "PStringerParam": "S:" + msg, "PAnyParam": ""}[pkind]
+	if text != wantText {
+		j.other = append(j.other, refMismatch{Input: in, Impl: text, Ref: wantText})
+	}
+	has := func(m string) bool {
+		for _, x := range methods {
+			if x == m {
+				return true
+			}
+		}
+		return false
+	}
+	wrapped := pkind != "PAnyParam"
+	ifaceM := map[string]string{"PErrorParam": "Error", "PStringerParam": "String", "PAnyParam": ""}[pkind]
+	for _, q := range []string{"Error", "Unwrap", "String", "comparable"} {
+		c := &c07wrapCase{pkind: pkind, methods: methods, probe: q, impl: seen[q], input: in}
+		if q == "comparable" {
+			c.ref = true
+			if wrapped {
+				c.region = "iface-uncomparable"
+			}
+		} else {
+			c.ref = has(q)
+			if has(q) && !(wrapped && q == ifaceM) {
+				c.region = "iface-method-hidden"
+			}
+		}
+		j.wraps = append(j.wraps, c)
+	}
+}
+
+func c07srcs(ts []*c07t) []string {
+	out := make([]string, len(ts))
+	for i, t := range ts {
+		out[i] = t.src()
+	}
+	return out
 }
